@@ -27,3 +27,21 @@ void vpx__ZSt24__throw_out_of_range_fmtPKcz(void* fmt, ...) { (void)fmt; VP_CHK(
 u32 vpx___cxa_guard_acquire(void* g) { return *(u8*)g == 0; }
 void vpx___cxa_guard_release(void* g) { *(u8*)g = 1; }
 void vpx___cxa_guard_abort(void* g) { (void)g; }
+/* RTTI support objects referenced by typeinfo initialisers (only their addresses matter) and __dynamic_cast for
+ * single-inheritance hierarchies (all ebusd class trees that use dynamic_cast are single inheritance):
+ * typeinfo layout { vptr, name, base (for __si_class_type_info) }, vtable layout [-2] offset-to-top, [-1] typeinfo */
+u8* vpx__ZTVN10__cxxabiv117__class_type_infoE; u8* vpx__ZTVN10__cxxabiv120__si_class_type_infoE; u8* vpx__ZTVN10__cxxabiv121__vmi_class_type_infoE;
+void* vpx___dynamic_cast(void* sub, void* src_ti, void* dst_ti, u64 hint) {
+  (void)src_ti; (void)hint;
+  if (!sub) return 0;
+  void** vptr = *(void***)sub;
+  i64 off_to_top = (i64)vptr[-2];
+  void** ti = (void**)vptr[-1];
+  char* complete = (char*)sub + off_to_top;
+  for (int k = 0; k < 8; k++) {
+    if ((void*)ti == dst_ti) return complete;
+    if (ti[0] != (void*)(&vpx__ZTVN10__cxxabiv120__si_class_type_infoE + 2)) return 0;
+    ti = (void**)ti[2];
+  }
+  return 0;
+}
